@@ -78,9 +78,21 @@ func parseRaceReports(txt string) []raceReport {
 				continue
 			}
 			a := access{kind: kind, frame: "?"}
+			first := true
 			for j := i + 1; j+1 < len(lines) && strings.TrimSpace(lines[j]) != ""; j += 2 {
 				fn := strings.TrimSpace(lines[j])
 				file := strings.TrimSpace(lines[j+1])
+				if strings.HasPrefix(fn, "runtime.") || strings.HasPrefix(fn, "internal/") {
+					continue
+				}
+				if first {
+					first = false
+					// the access itself is in shim / environment code (origin log, recorder):
+					// not an access of the code under test
+					if strings.HasPrefix(fn, "reservoir/zzverif/") && !strings.Contains(fn, "MapOrder") {
+						break
+					}
+				}
 				if !strings.HasPrefix(fn, "reservoir/") || strings.HasPrefix(fn, "reservoir/zzverif/") || strings.Contains(file, "zz_verif_") {
 					continue
 				}
